@@ -386,8 +386,18 @@ func (fv *FV) bindGhosts(st *State, callee string, res []Term) {
 	if fv.spec == nil || st.frame == nil || st.frame.ID != 0 {
 		return
 	}
+	if st.callCount == nil {
+		st.callCount = map[string]int{}
+	} else {
+		nc := make(map[string]int, len(st.callCount)+1)
+		for k, v := range st.callCount {
+			nc[k] = v
+		}
+		st.callCount = nc
+	}
+	st.callCount[callee]++
 	for _, g := range fv.spec.GhostAt {
-		if g.Callee != callee {
+		if g.Callee != callee || g.Ord != st.callCount[callee] {
 			continue
 		}
 		var errs []string
